@@ -27,6 +27,7 @@ import (
 	"verifharness/fw"
 	"verifharness/ref/azref"
 	"verifharness/ref/dmref"
+	"verifharness/ref/onedref"
 	"verifharness/ref/qrref"
 )
 
@@ -1587,6 +1588,13 @@ func c06(c *fw.Ctx) {
 			k := k
 			c.Run(fmt.Sprintf("rowtail/%s/%d", rd.name, k), func(r *fw.Rec) { c06RowTail(r, rd, k) })
 		}
+		if rd.name == "Code128Reader" {
+			for start := 103; start <= 105; start++ {
+				start := start
+				c.Run(fmt.Sprintf("code128-short/%d", start), func(r *fw.Rec) { c06Code128Short(r, rd, start) })
+			}
+			c.Floor("code128 short symbols (1-2 characters, all values)", 3*(1+106+106*106))
+		}
 		c.Floor(rd.name+".DecodeRow result", 500)
 		c.Floor(rd.name+".DecodeRow errors", 5000)
 	}
@@ -1669,6 +1677,11 @@ func c06(c *fw.Ctx) {
 	}
 	c.Floor("qr symbols with a foreign version word", 400)
 	c.Run("qr-fnc1-percent", func(r *fw.Rec) { c06QRFNC1Percent(r) })
+	for si := range dmref.Symbols() {
+		si := si
+		c.Run(fmt.Sprintf("dm-valid/%d", si), func(r *fw.Rec) { c06DMValidAllSizes(r, si) })
+	}
+	c.Floor("dm standard constructions decoded", 200)
 	for part := 0; part <= 4; part++ {
 		part := part
 		c.Run(fmt.Sprintf("qr-short-payloads/%d", part), func(r *fw.Rec) { c06QRShortPayloads(r, part) })
@@ -1944,4 +1957,109 @@ func c06QRForeignVersionWord(r *fw.Rec, v int) {
 		}
 	}
 	r.Nontrivial(fmt.Sprintf("qrforeign/%d", v))
+}
+
+// c06Code128Short: every Code 128 symbol of one or two characters after the start character
+// (any of the 106 values, function / shift / code-set / start characters included), with its
+// verifying check character and the stop pattern, through DecodeRow: the reader's end-of-symbol
+// bookkeeping (what the last character was, how much of the text the check character "printed")
+// works on whatever precedes the check, and short symbols are where it runs out of text.
+func c06Code128Short(r *fw.Rec, rd *c06Reader, start int) {
+	dec := rd.mk(nil).(oned.RowDecoder)
+	try := func(vals []int) bool {
+		full := append(append([]int{}, vals...), onedref.Code128Check(vals))
+		p := onedref.Code128Pattern(full)
+		row := make([]bool, 0, len(p)+24)
+		row = append(row, make([]bool, 12)...)
+		row = append(row, p...)
+		row = append(row, make([]bool, 12)...)
+		return c06RowCall(r, rd, dec, row, "code128-short", fmt.Sprintf("code128 values %v + check %d", vals, full[len(full)-1]), nil, "nil", 0)
+	}
+	if !try([]int{start}) {
+		return
+	}
+	for v1 := 0; v1 <= 105; v1++ {
+		if !try([]int{start, v1}) {
+			return
+		}
+		for v2 := 0; v2 <= 105; v2++ {
+			if !try([]int{start, v1, v2}) {
+				return
+			}
+		}
+	}
+	r.TallyN("code128 short symbols (1-2 characters, all values)", 1+106+106*106)
+	r.Nontrivial(fmt.Sprintf("code128-short/%s/%d", rd.name, start))
+}
+
+// c06DMValidAllSizes: the standard construction of every ECC 200 size (random codewords; clean,
+// and with up to the correctable number of damaged codewords per block, and with one more) through
+// both entry points of the decoder: what holds for random matrices must hold where Reed-Solomon
+// succeeds and the parser runs over a full symbol.
+func c06DMValidAllSizes(r *fw.Rec, si int) {
+	rng := r.Rng
+	s := dmref.Symbols()[si]
+	for rep := 0; rep < 3; rep++ {
+		data := make([]byte, s.DataCW)
+		switch rep {
+		case 0:
+			for i := range data {
+				data[i] = byte('0' + rng.Intn(10) + 1) // ASCII digits: the text is as long as the symbol allows
+			}
+		case 1:
+			for i := range data {
+				data[i] = byte(130 + rng.Intn(100)) // digit pairs: twice as long
+			}
+		default:
+			for i := range data {
+				data[i] = byte(rng.Uint64())
+			}
+		}
+		clean := dmref.BuildMatrix(s, data)
+		for dmg := 0; dmg < 3; dmg++ {
+			m := make([][]bool, len(clean))
+			for y := range clean {
+				m[y] = append([]bool{}, clean[y]...)
+			}
+			if dmg > 0 {
+				n := 1 + rng.Intn(4)
+				if dmg == 2 {
+					n = 3 + rng.Intn(40)
+				}
+				for k := 0; k < n; k++ {
+					x, y := 1+rng.Intn(s.Cols-2), 1+rng.Intn(s.Rows-2)
+					m[y][x] = !m[y][x]
+				}
+			}
+			for api := 0; api < 2; api++ {
+				target := []string{"datamatrix/decoder.Decode", "datamatrix/decoder.DecodeBoolMap"}[api]
+				var res interface{}
+				var err error
+				msg, stack, panicked := fw.Guard(func() {
+					var dr *common.DecoderResult
+					var e error
+					if api == 1 {
+						dr, e = dmdec.NewDecoder().DecodeBoolMap(m)
+					} else {
+						dr, e = dmdec.NewDecoder().Decode(c06BitMatrix(m))
+					}
+					err = e
+					if dr != nil {
+						res = dr
+					}
+				})
+				desc := fmt.Sprintf("standard construction of %dx%d, data kind %d, damage level %d", s.Rows, s.Cols, rep, dmg)
+				data := func() map[string]interface{} {
+					return map[string]interface{}{"matrix": c06MatrixText(m), "width": s.Cols, "height": s.Rows, "source": desc}
+				}
+				if !c06Judge(r, target, fmt.Sprintf("%s(%s)", target, desc), res != nil, err, msg, stack, panicked, false, data) {
+					return
+				}
+				if res != nil {
+					r.Tally("dm standard constructions decoded")
+				}
+			}
+		}
+	}
+	r.Nontrivial(fmt.Sprintf("dm-valid/%d", si))
 }
